@@ -2,6 +2,7 @@ import TantivyModel.Driver.Proto
 import TantivyModel.Model.Columnar.Column
 import TantivyModel.Model.Columnar.Writer
 import TantivyModel.Model.Columnar.CompactSpace
+import TantivyModel.Model.Columnar.DictMerge
 /-!
 Line protocol of the C08 model (fast fields / columnar).
 
@@ -25,6 +26,10 @@ Line protocol of the C08 model (fast fields / columnar).
   stack <inputs>                     -> rows of read(mergeStacked)
   colrange <lo> <hi> <s> <e> <rows>  -> Column::get_docids_for_value_range on the written column
   inrange <lo> <hi> <rows>           -> docsInRange
+  dictmerge <used> <dicts>           -> `merged;map/map/..` of merge_dict_and_compute_term_ord_mapping: dicts
+                                        separated by `/` (terms as ranks), used per segment `*` (every
+                                        ordinal) or the ordinals surviving rows use; map: new ordinal per old
+                                        ordinal of the segment (x = not registered)
 -/
 namespace TantivyModel.Driver.C08
 open TantivyModel TantivyModel.Proto TantivyModel.Columnar
@@ -64,6 +69,14 @@ def parseInput (s : String) : Option (MergeInput Nat) :=
 
 def parseInputs (s : String) : Option (List (MergeInput Nat)) :=
   if s == "-" then some [] else (s.splitOn "/").mapM parseInput
+
+def parseUsed (s : String) : Option (List (Option (List Nat))) :=
+  (s.splitOn "/").mapM (fun t => if t == "*" then some none else (natList t).map some)
+
+def usedFn (u : List (Option (List Nat))) (s o : Nat) : Bool :=
+  match u.getD s (some []) with
+  | none => true
+  | some l => l.contains o
 
 def parseCard : String → Option (Option Card)
   | "auto" => some none
@@ -192,6 +205,14 @@ def handle : List String → String
       let e := writerEncode rows
       showNatList (docidsForValueRange id e.1 e.2 lo hi st en)
     | _, _, _, _, _ => "bad-op"
+  | ["dictmerge", used, dicts] =>
+    match parseUsed used, (dicts.splitOn "/").mapM natList with
+    | some u, some ds =>
+      let m := mergeDicts (usedFn u) ds
+      let maps := (List.range ds.length).map (fun s =>
+        showOptList ((List.range (ds.getD s []).length).map (fun o => remapOrd m s o)))
+      showNatList m.merged ++ ";" ++ "/".intercalate maps
+    | _, _ => "bad-op"
   | ["inrange", lo, hi, rows] =>
     match lo.toNat?, hi.toNat?, parseRows rows with
     | some lo, some hi, some rows => showNatList (docsInRange id rows lo hi)
